@@ -7,7 +7,7 @@ CONSTANTS
   FixSetter = FALSE
   FixRollback = FALSE
   H = 4
-  CatSel = {1, 2, 3, 4, 5, 6, 7, 8, 9, 10, 11}
+  CatSel = {1, 2, 3, 4, 5, 6, 7, 8, 9, 10, 11, 12, 13, 14, 15}
   Wide = TRUE
 INVARIANT TypeOK
 INVARIANT NoClobber
